@@ -695,7 +695,16 @@ def rule_decorators_transparent(prog: Program, col: Collector) -> None:
                               "`all='raise'` (or under= / over= / invalid='raise') makes harmless events - a float32 underflow to 0 for tiny or widely scaled legal inputs - abort "
                               "the computation half-way with its state partly updated, where the plain code returns the correct result")
             elif q.startswith("incomplete_cooperative."):
-                col.undecidable(ref.where(d), ref.short, f"decorator @{src(d)[:50]} wraps {ref.node.name}: a package decorator the rules do not read through")
+                # a wrapper of the package: transparent if it passes every failure of the wrapped call on and returns its result (the analysis of A7)
+                from .save import decorator_transparency
+                verdict, msg = decorator_transparency(prog, ref.module, d)
+                if verdict == "ok":
+                    col.ok(ref.where(d), ref.short, f"decorator @{src(d)[:40]} passes results and failures of {ref.node.name} through")
+                elif verdict == "violation":
+                    col.violation(ref.where(d), ref.short, f"wrapper-swallows-failure:{ref.node.name}", msg,
+                                  "a call that failed and is reported as done lets the caller go on with a half-finished effect")
+                else:
+                    col.undecidable(ref.where(d), ref.short, f"decorator @{src(d)[:50]} wraps {ref.node.name}: {msg}")
             else:
                 col.undecidable(ref.where(d), ref.short, f"decorator @{src(d)[:50]} on {ref.node.name}: effect not known")
     if n == 0:
